@@ -213,7 +213,9 @@ DrItem(w) ==
     /\ UNCHANGED <<st, SIDE, Q, root, lv, ip, ev, RUN, ref, pred, GH>>
 Upgrade(w) ==
     /\ pc[w] = "upgrade"
-    /\ LET r == TryUpgradeFullWidth(st, lv[w].ow) IN
+    /\ LET r == IF Mut = "upgrade_ignores_readers"
+                THEN [ok |-> TRUE, s |-> [st EXCEPT !.ib = TRUE, !.pb = FALSE, !.dirty = FALSE, !.used = @ - lv[w].ow + W]]
+                ELSE TryUpgradeFullWidth(st, lv[w].ow) IN
        /\ st' = r.s
        /\ IF r.ok THEN lv' = [lv EXCEPT ![w].mode = "IB", ![w].ow = 0] /\ Go(w, "dr_item")
                   ELSE lv' = [lv EXCEPT ![w].ow = 0] /\ Go(w, "unlock_wait")     \* out_with_no_width
